@@ -1184,6 +1184,12 @@ class Intrinsic_Type_Spec(WORDClsBase):  # R403
             (pattern.abs_double_precision_name, None),
             ("BYTE", None),
         ]:
+            if cls is Kind_Selector:
+                # Kind_Selector requires its caller to pass at least two
+                # characters ('*n' or '(n)' are the shortest valid forms).
+                line = string.lstrip()
+                if line[: len(w)].upper() == w and len(line[len(w) :].strip()) == 1:
+                    return None
             try:
                 obj = WORDClsBase.match(w, cls, string)
             except NoMatchError:
